@@ -112,7 +112,7 @@ def run(ctx):
     # ---- R9.3
     waits = ba.calls(r"state::Lock::wait_lock")
     ctx.floor("R9.3", "blocking wait_lock sites in the scheduler", len(waits), 1)
-    cw = classify_waits(S)
+    cw = classify_waits(S, prog)
     loss_ready = [r for _, r in cw["loss"] if r is not None]
     gains = {r for _, r in cw["gain"] if r is not None}
     # "drained": an await that polls the job-future stream to exhaustion
